@@ -150,3 +150,79 @@ def run_all(ck, db):
     ck.bounds['operators'] = ('one application of each of %s to literal operands (integer: all i64, boolean, string <= 6 bytes), exactly the operand '
                               'type combinations the operator\'s own signature accepts' % ', '.join(names))
     return names
+
+
+# =========================================================================== impl PartialEq for Type (the checker's notion of "same type")
+
+def spec_type_eq(ck, db):
+    cands = [f for f in db.by_method.get('eq', []) if f.params and len(f.params) == 2 and re.match(r'^&(?:script::)?Type$', f.params[0][1].strip())]
+    if len(cands) != 1:
+        ck.add('Type::eq', 'undecided', 'anchor_missing (%d candidates)' % len(cands))
+        return
+    fn = ck.target(cands[0])
+    ck.plans.append(type_eq_replay_plan)
+    tn = None
+    ex = ck.engine(db=db, loop_bound=6)
+    ex.benign_havoc = re.compile(r'Deref|Clone')
+    ex.iter_bound = 4
+    st = State()
+    tn = ex.si.enums['Type']
+    SC = [tn.index('String'), tn.index('Integer'), tn.index('Boolean'), tn.index('Any')]
+
+    def scalar(hint):
+        d = z3.BitVec(hint, 64)
+        ex.assume(st, z3.Or([d == BV(k, 64) for k in SC]))
+        return Agg('Type', {}, d, {}, tn), d
+
+    def tuple_ty(hint, n):
+        els, ds = [], []
+        for i in range(n):
+            t, d = scalar('%s_elem%d' % (hint, i))
+            els.append(t)
+            ds.append(d)
+        return Agg('Type', {}, tn.index('Tuple'), {tn.index('Tuple'): {0: SeqV.from_items(els, 'Type', 'vec')}}, tn), ds
+    anyk = BV(tn.index('Any'), 64)
+    for na in range(0, 3):
+        for nb in range(0, 3):
+            s0 = st.fork()
+            a, da = tuple_ty('a%d%d' % (na, nb), na)
+            b, db_ = tuple_ty('b%d%d' % (na, nb), nb)
+            s0.pc = list(st.pc)
+            ex.inputs = dict([('lhs_elem%d' % i, d) for i, d in enumerate(da)] + [('rhs_elem%d' % i, d) for i, d in enumerate(db_)])
+            finals = ex.call_fn(s0, fn, [Ref(s0.alloc(a), ()), Ref(s0.alloc(b), ())])
+            for f in finals:
+                if f.status != 'returned':
+                    continue
+                exp = z3.BoolVal(na == nb)
+                if na == nb:
+                    exp = z3.And([z3.Or(x == y, x == anyk, y == anyk) for x, y in zip(da, db_)]) if na else z3.BoolVal(True)
+                ex.prove(f, 'C08/type-eq/tuple-types-equal-iff-same-length-and-elementwise-compatible', f.ret.t == exp)
+    # scalars
+    s1 = st.fork()
+    x, dx = scalar('x')
+    y, dy = scalar('y')
+    s1.pc = list(st.pc)
+    ex.inputs = {'lhs': dx, 'rhs': dy}
+    finals = ex.call_fn(s1, fn, [Ref(s1.alloc(x), ()), Ref(s1.alloc(y), ())])
+    for f in finals:
+        if f.status == 'returned':
+            ex.prove(f, 'C08/type-eq/scalar-types-equal-iff-identical-or-any', f.ret.t == z3.Or(dx == dy, dx == anyk, dy == anyk))
+    ck.absorb(ex, 'impl PartialEq for Type', None)
+    ck.bounds['Type::eq'] = 'scalar types and tuples of 0..2 scalar elements on each side'
+
+
+def type_eq_replay_plan(ob):
+    f = ob.finding
+    if f is None or not ob.label.startswith('C08/type-eq/'):
+        return None
+    i = f.inputs
+    if 'lhs' in i:
+        l, r, tup = [i['lhs']], [i['rhs']], False
+    else:
+        l = [i[k] for k in sorted(x for x in i if x.startswith('lhs_elem'))]
+        r = [i[k] for k in sorted(x for x in i if x.startswith('rhs_elem'))]
+        tup = True
+    ANY = 6
+    exp = len(l) == len(r) and all(x == y or x == ANY or y == ANY for x, y in zip(l, r))
+    case = {'driver': 'type_eq', 'args': {'lhs': l, 'rhs': r, 'tuple': tup}}
+    return 'milu_script', case, lambda o: o.get('equal') is not None and o.get('equal') != exp
